@@ -2,7 +2,7 @@
    no Go panic, no fuel exhaustion, and the precondition reduced to its part
    about call heads and names. *)
 From Verif Require Import Lib.Base Model.Resolver Proofs.Resolver Proofs.ResolverSound Proofs.ResolverExact
-  Proofs.ResolverOrder Proofs.ResolverFlat Proofs.ResolverNoPanic Proofs.ResolverTopo Proofs.ResolverBound.
+  Proofs.ResolverOrder Proofs.ResolverFlat Proofs.ResolverNoPanic Proofs.ResolverTopo Proofs.ResolverBound Proofs.ResolverLoop.
 Open Scope Z_scope.
 
 (* the only possible outcomes for a program that meets the precondition *)
@@ -120,4 +120,103 @@ Proof.
   pose proof (wf0_wf P Hwf0) as Hwf. destruct (wf_parts P Hwf) as [_ [Hnd [Hne _]]].
   pose proof (reorder_wf P P' Hre Hnd Hwf) as Hwf'. destruct (wf_parts P' Hwf') as [_ [_ [Hne' _]]].
   apply main_order_independent; try assumption; apply resolve_cut_no_cutoff; assumption.
+Qed.
+
+(* ---------- the resolver as it is now: no cut-off, no guard ----------------------------- *)
+
+Theorem impl_sound pi P F :
+  perm_oracle pi -> names_ok P -> resolve pi P = ROk F ->
+  solution P (rho_of (fin_types F)) /\ compile_check P F = true.
+Proof. rewrite resolve_is_cut. apply resolve_sound. Qed.
+
+Theorem impl_complete pi P e :
+  names_ok P -> resolve pi P = RErr e -> is_type_error e = true -> ~ sat P.
+Proof. rewrite resolve_is_cut. apply resolve_complete. Qed.
+
+(* two outcomes only for a program that meets the precondition *)
+Theorem impl_outcomes pi P :
+  perm_oracle pi -> wf0 P = true ->
+  (exists F, resolve pi P = ROk F) \/ (exists e, resolve pi P = RErr e /\ is_type_error e = true).
+Proof.
+  intros Hpi Hwf0. pose proof (resolve_never_gives_up pi P) as Hn. rewrite resolve_is_cut in *.
+  destruct (main_outcomes (pass_fuel P) pi P Hpi Hwf0) as [H|[H|H]]; [left; exact H | right; exact H | congruence].
+Qed.
+
+(* EXACT: accepted exactly when the usage constraints are satisfiable *)
+Theorem impl_exact pi P :
+  perm_oracle pi -> wf0 P = true -> ((exists F, resolve pi P = ROk F) <-> sat P).
+Proof.
+  intros Hpi Hwf0. pose proof (resolve_never_gives_up pi P) as Hn. rewrite resolve_is_cut in *.
+  apply main_exact; assumption.
+Qed.
+
+(* every satisfiable program is accepted *)
+Theorem impl_accepts_satisfiable pi P :
+  perm_oracle pi -> wf0 P = true -> sat P -> exists F, resolve pi P = ROk F.
+Proof. intros Hpi Hwf0 Hs. apply impl_exact; assumption. Qed.
+
+Theorem impl_order_independent pi pi' P P' :
+  perm_oracle pi -> perm_oracle pi' -> wf0 P = true -> reordered P P' ->
+  ((exists F, resolve pi P = ROk F) <-> (exists F', resolve pi' P' = ROk F')) /\
+  (forall F F', resolve pi P = ROk F -> resolve pi' P' = ROk F' ->
+                forall k, rho_of (fin_types F') k = rho_of (fin_types F) k).
+Proof.
+  intros Hpi Hpi' Hwf0 Hre.
+  pose proof (resolve_never_gives_up pi P) as Hn. pose proof (resolve_never_gives_up pi' P') as Hn'.
+  pose proof (resolve_no_fuel pi P Hpi) as Hf. pose proof (resolve_no_fuel pi' P' Hpi') as Hf'.
+  rewrite resolve_is_cut in *. rewrite (resolve_is_cut pi' P') in *.
+  apply reorder_independent2; try assumption. apply wf0_wf. exact Hwf0.
+Qed.
+
+Theorem impl_map_order_irrelevant pi pi' P :
+  perm_oracle pi -> perm_oracle pi' -> wf0 P = true ->
+  ((exists F, resolve pi P = ROk F) <-> (exists F', resolve pi' P = ROk F')) /\
+  (forall F F', resolve pi P = ROk F -> resolve pi' P = ROk F' ->
+                forall k, rho_of (fin_types F') k = rho_of (fin_types F) k).
+Proof.
+  intros Hpi Hpi' Hwf0. apply impl_order_independent; try assumption.
+  split; [reflexivity|]. split; apply Permutation.Permutation_refl.
+Qed.
+
+(* the order the code uses now is a permutation oracle *)
+Lemma insert_name_perm x l : Permutation.Permutation (insert_name x l) (x :: l).
+Proof.
+  induction l as [|y l IH]; cbn [insert_name]; [apply Permutation.Permutation_refl|].
+  destruct (name_leb x y); [apply Permutation.Permutation_refl|].
+  eapply Permutation.Permutation_trans; [apply Permutation.perm_skip; exact IH | apply Permutation.perm_swap].
+Qed.
+
+Lemma sort_names_perm l : Permutation.Permutation (sort_names l) l.
+Proof.
+  unfold sort_names. induction l as [|x l IH]; cbn [fold_right]; [apply Permutation.Permutation_refl|].
+  eapply Permutation.Permutation_trans; [apply insert_name_perm | apply Permutation.perm_skip; exact IH].
+Qed.
+
+Lemma name_order_oracle_perm : perm_oracle name_order_oracle.
+Proof. intros k l. apply sort_names_perm. Qed.
+
+(* corresponding constraint systems (renaming), for the resolver as it is now *)
+Theorem impl_types_correspond (P P' : program) (phi psi : key -> key) :
+  (forall k', phi (psi k') = k') -> (forall k, psi (phi k) = k) ->
+  (forall rho, solution P rho <-> solution P' (fun k' => rho (psi k'))) ->
+  forall order order' F F',
+  names_ok P -> names_ok P' -> covers P order -> covers P' order' ->
+  resolve_order_impl order P = ROk F -> resolve_order_impl order' P' = ROk F' ->
+  forall k, rho_of (fin_types F') (phi k) = rho_of (fin_types F) k.
+Proof.
+  intros H1 H2 H3 order order' F F' Hn Hn' Hc Hc' H H'.
+  destruct (resolve_order_impl_ends P order) as [_ [_ E]]. destruct (resolve_order_impl_ends P' order') as [_ [_ E']].
+  rewrite E in H. rewrite E' in H'. eapply types_correspond; eassumption.
+Qed.
+
+Theorem impl_verdict_correspond (P P' : program) (phi psi : key -> key) :
+  (forall k', phi (psi k') = k') ->
+  (forall rho, solution P rho <-> solution P' (fun k' => rho (psi k'))) ->
+  forall order order',
+  wf P = true -> wf P' = true -> covers P order -> covers P' order' ->
+  ((exists F, resolve_order_impl order P = ROk F) <-> (exists F', resolve_order_impl order' P' = ROk F')).
+Proof.
+  intros H1 H3 order order' Hw Hw' Hc Hc'.
+  destruct (resolve_order_impl_ends P order) as [T [_ E]]. destruct (resolve_order_impl_ends P' order') as [T' [_ E']].
+  rewrite E in *. rewrite E' in *. eapply verdict_correspond; eassumption.
 Qed.
